@@ -1,6 +1,7 @@
 import Driver.OpsBot
 import Driver.OpsFPA
 import TakVerif.Impl.Friendly
+import TakVerif.Impl.FPATotal
 /-! ops `glue`, `gluefn` (C20 glue): the model side of `harness/verifh/ops_glue.go` — `Friendly.GetMove` and
 `Taktician.GetMove` on game records. -/
 namespace Driver
@@ -90,7 +91,8 @@ def glueStep (basis : Array W) (who : GlueWho) (realAI : Bool) (st : GlueSt) (to
         match who with
         | .friendly color size =>
           let g : GameRec := { color := color, size := size, positions := st.positions, moves := st.moves }
-          match friendlyGetMove st.fpa g p c.chk with
+          -- the tree with fixes/C07-fpa-script-declines.diff (Impl/FPATotal.lean)
+          match friendlyGetMoveD st.fpa g p c.chk with
           | .ok (fpa, a) => { st with fpa := fpa, out := glueRender basis realAI true p c a :: st.out }
           | .error _ => { st with out := "panic" :: st.out, stop := true }
         | .taktician cfg color size =>
